@@ -58,6 +58,11 @@ struct InnerHeap {
 
 impl InnerHeap {
     unsafe fn grow(&mut self) -> bool {
+        #[cfg(feature = "verif")]
+        if crate::verif::alloc_should_fail() {
+            return false;
+        }
+
         let new_cap = if self.byte_cap == 0 {
             256 * 256 * 8
         } else {
@@ -91,6 +96,14 @@ impl InnerHeap {
         } else {
             false
         }
+    }
+}
+
+#[cfg(feature = "verif")]
+impl Heap {
+    /// (bytes in use, bytes reserved)
+    pub fn verif_len_cap(&self) -> (usize, usize) {
+        (self.inner.byte_len, self.inner.byte_cap)
     }
 }
 
